@@ -111,6 +111,8 @@ type Session struct {
 	Misuse  string
 	// kind of the operation the injected failure hit (-1: not reached)
 	FaultedKind int
+	// for a failing COMMIT: 1 = the first COMMIT of the delivery, 2 = the second (proxy driver: the fence transaction's)
+	FaultedCommitNo int
 }
 
 // op journals one driver operation and decides whether it fails by injection.
@@ -132,6 +134,13 @@ func (s *Session) op(kind int, key *fkey) error {
 	s.NOps++
 	if n == s.Fault {
 		s.FaultedKind = kind
+		if kind == OpCommit {
+			for _, k := range s.Trace {
+				if k == OpCommit {
+					s.FaultedCommitNo++
+				}
+			}
+		}
 		return errInjected
 	}
 	return nil
@@ -357,7 +366,9 @@ func (c *conn) write(k fkey, r *frow) {
 func (c *conn) lock(k fkey) error {
 	st := c.sess.Store
 	if o, ok := st.owner[k]; ok && o != c.sess.ID {
-		c.sess.Misuse = "lock conflict reached the store (scheduler bug)"
+		if c.sess.Gate != nil {
+			c.sess.Misuse = "lock conflict reached the store (scheduler bug)"
+		}
 		return &mysql.MySQLError{Number: 1205, Message: "Lock wait timeout exceeded"}
 	}
 	if c.tx != nil {
@@ -527,7 +538,9 @@ func (s *stmt) Query(args []driver.Value) (driver.Rows, error) {
 	st.mu.Lock()
 	defer st.mu.Unlock()
 	if o, held := st.owner[k]; held && o != c.sess.ID && !s.p.nolock {
-		c.sess.Misuse = "lock conflict reached the store (scheduler bug)"
+		if c.sess.Gate != nil {
+			c.sess.Misuse = "lock conflict reached the store (scheduler bug)"
+		}
 		return nil, &mysql.MySQLError{Number: 1205, Message: "Lock wait timeout exceeded"}
 	}
 	r, ok := c.view(k)
